@@ -52,7 +52,10 @@ type Cluster struct {
 	mu      sync.Mutex
 	pw      map[string]string // lower-case uid -> current password
 	anon    bool              // answer success to unauthenticated (empty password) binds
-	status  []string          // up | down | hang | err<code>
+	acct    map[string]string // lower-case uid -> Active Directory account-state sub-code ("" = usable)
+	diag    string            // plain | ad | noisy: diagnostic message of invalidCredentials refusals
+	nth     int
+	status  []string // up | down | hang | err<code>
 	urls    []string
 	trace   []string
 	hung    []net.Conn
@@ -129,7 +132,7 @@ func Start(n int) (*Cluster, error) {
 	if err != nil {
 		return nil, err
 	}
-	c := &Cluster{pw: map[string]string{}, RootCAs: pool}
+	c := &Cluster{pw: map[string]string{}, acct: map[string]string{}, diag: "plain", RootCAs: pool}
 	for i := 0; i < n; i++ {
 		i := i
 		c.status = append(c.status, "up")
@@ -210,16 +213,65 @@ func (c *Cluster) handleBind(i int, w ldapserver.ResponseWriter, m *ldapserver.M
 			res.SetDiagnosticMessage("unauthenticated bind (DN with no password) disallowed")
 			mark = "e"
 		}
-	case known && pass == want:
+	case known && pass == want && c.acct[uid] == "":
 		mark = "+"
 	default:
+		// invalidCredentials: the directory's refusal, whatever it chooses to say about the reason
+		sub := "52e" // wrong password
+		switch {
+		case !known:
+			sub = "525" // no such user
+		case pass == want:
+			sub = c.acct[uid] // right password, account not usable
+		}
 		res.SetResultCode(ldapserver.LDAPResultInvalidCredentials)
-		res.SetDiagnosticMessage("")
+		res.SetDiagnosticMessage(c.diagnostic(sub))
 		mark = "-"
 	}
 	c.trace = append(c.trace, strconv.Itoa(i)+mark)
 	c.mu.Unlock()
 	w.Write(res)
+}
+
+var noisyDiagnostics = []string{
+	"account locked; server busy, connection timed out, try again later",
+	"Unwilling To Perform: directory unavailable (Busy)",
+	"error: referral to ldaps://other.example.com; Operations Error",
+	"password expired! contact the help desk. network error 0x51",
+	"AcceptSecurityContext error, data 52e, v3839",
+}
+
+// diagnostic: what the directory writes next to an invalidCredentials result (caller holds c.mu).
+func (c *Cluster) diagnostic(sub string) string {
+	switch c.diag {
+	case "ad":
+		return "80090308: LdapErr: DSID-0C090447, comment: AcceptSecurityContext error, data " + sub + ", v3839"
+	case "noisy":
+		c.nth++
+		return noisyDiagnostics[c.nth%len(noisyDiagnostics)]
+	}
+	return ""
+}
+
+// SetAccount: code "" / "ok" = usable, otherwise the account-state sub-code its refusals carry.
+func (c *Cluster) SetAccount(uid, code string) {
+	c.mu.Lock()
+	defer c.mu.Unlock()
+	if code == "ok" {
+		code = ""
+	}
+	c.acct[strings.ToLower(uid)] = code
+}
+
+// SetDiag: plain | ad | noisy
+func (c *Cluster) SetDiag(style string) bool {
+	if style != "plain" && style != "ad" && style != "noisy" {
+		return false
+	}
+	c.mu.Lock()
+	c.diag = style
+	c.mu.Unlock()
+	return true
 }
 
 func (c *Cluster) URLs() []string { return append([]string(nil), c.urls...) }
@@ -277,6 +329,8 @@ func (c *Cluster) Reset() {
 	}
 	c.hung = nil
 	c.pw = map[string]string{}
+	c.acct = map[string]string{}
+	c.diag = "plain"
 	c.anon = false
 	c.trace = nil
 	c.mu.Unlock()
